@@ -131,32 +131,74 @@ Qed.
 Lemma step_is_tstep : forall local K t o, fst (step local K t o) = tstep add_conn local K t o.
 Proof. reflexivity. Qed.
 
+Lemma split_first_existsb : forall {A} (p : A -> bool) l,
+  existsb p l = true -> exists a y c, split_first p l = Some (a, y, c).
+Proof.
+  induction l as [|x l IH]; simpl; intros H; [discriminate|].
+  destruct (p x) eqn:E; [eauto|]. simpl in H. destruct (IH H) as [a [y [c ->]]]. eauto.
+Qed.
+
+(* an operation never removes the key it names *)
+Lemma stored_self_mono : forall local K t o,
+  stored_in local t (op_key o) = true -> stored_in local (fst (step local K t o)) (op_key o) = true.
+Proof.
+  intros local K t o H. destruct (step_cases local K t o) as [E|[i [Hi E]]]; rewrite E; [exact H|].
+  unfold stored_in in *. rewrite Hi in *.
+  assert (Hlt : i < length t).
+  { destruct (Nat.lt_ge_cases i (length t)) as [Hl|Hl]; auto.
+    rewrite nth_overflow in H by exact Hl. discriminate. }
+  rewrite nth_upd_same by exact Hlt. unfold bucket_entry.
+  destruct (split_first_existsb _ _ H) as [a [y [c E1]]]. rewrite E1.
+  apply split_first_some in E1. destruct E1 as [_ [Hy _]].
+  assert (Hs : exists y', apply_slot o (nth i t []) (SOcc a y c) = a ++ y' :: c /\ n_key y' = n_key y)
+    by (unfold apply_slot; destruct o; eexists; split; reflexivity).
+  destruct Hs as [y' [-> Ek]]. rewrite existsb_app. simpl.
+  unfold has_key in *. rewrite Ek, Hy. rewrite orb_true_r. reflexivity.
+Qed.
+
+Lemma stored_or : forall local K t o,
+  stored_in local t (op_key o) || stored_in local (fst (step local K t o)) (op_key o) = true ->
+  stored_in local (fst (step local K t o)) (op_key o) = true.
+Proof.
+  intros local K t o H. apply orb_true_iff in H. destruct H as [H|H]; [apply stored_self_mono; exact H|exact H].
+Qed.
+
+Lemma in_gt_step : forall local t t' code g o k,
+  In k (gt_step local t t' code g o) ->
+  (op_key o = k /\ claims_connected o code = true /\
+   stored_in local t k || stored_in local t' k = true) \/
+  (In k g /\ o <> ODisconnected k).
+Proof.
+  intros local t t' code g o k Hk.
+  assert (Hgen : forall o', (forall k0, o' <> ODisconnected k0) ->
+            In k (if claims_connected o' code && (stored_in local t (op_key o') || stored_in local t' (op_key o'))
+                  then add_peer g (op_key o') else g) ->
+            (op_key o' = k /\ claims_connected o' code = true /\
+             stored_in local t k || stored_in local t' k = true) \/ (In k g /\ o' <> ODisconnected k)).
+  { intros o' Hnd H.
+    destruct (claims_connected o' code && (stored_in local t (op_key o') || stored_in local t' (op_key o'))) eqn:Ec.
+    - apply andb_true_iff in Ec. destruct Ec as [Ec1 Ec2].
+      apply in_add_peer in H. destruct H as [->|H]; [left; auto|right; split; [exact H|apply Hnd]].
+    - right. split; [exact H|apply Hnd]. }
+  destruct o as [k0|k0 a0 c0|k0 a0 c0|k0 d0|k0 a0|k0];
+    try (apply Hgen; [intros; discriminate|exact Hk]).
+  simpl in Hk. apply in_del_peer in Hk. destruct Hk as [Hin Hne].
+  right. split; [exact Hin|]. intro E. inversion E. congruence.
+Qed.
+
 (* the invariant is kept by every operation, from any table *)
 Lemma gt_step_inv : forall local K t g o,
   GInv local t g ->
-  GInv local (fst (step local K t o)) (gt_step local (fst (step local K t o)) (snd (snd (step local K t o))) g o).
+  GInv local (fst (step local K t o)) (gt_step local t (fst (step local K t o)) (snd (snd (step local K t o))) g o).
 Proof.
   intros local K t g o HG k Hk.
-  assert (Hold : In k g -> o <> ODisconnected k ->
-                 exists i n, ilog2 (kxor local k) = Some i /\ In n (nth i (fst (step local K t o)) []) /\
-                             n_key n = k /\ n_conn n = Connected).
-  { intros Hin Hnd. destruct (HG k Hin) as [i [n [Hi [Hn [Hkey Hc]]]]].
+  apply in_gt_step in Hk. destruct Hk as [[E1 [E2 E3]]|[Hin Hnd]].
+  - subst k. apply claim_connected; [exact E2|apply stored_or; exact E3].
+  - destruct (HG k Hin) as [i [n [Hi [Hn [Hkey Hc]]]]].
     rewrite step_is_tstep.
-    destruct (tstep_connected add_conn local K t o i n add_conn_keeps Hn Hc) as [n' [Hn' [E1 [E2 _]]]].
+    destruct (tstep_connected add_conn local K t o i n add_conn_keeps Hn Hc) as [n' [Hn' [F1 [F2 _]]]].
     { rewrite Hkey. exact Hnd. }
-    exists i, n'. repeat split; auto. congruence. }
-  destruct o as [k0|k0 a0 c0|k0 a0 c0|k0 d0|k0 a0|k0];
-    try (unfold gt_step in Hk;
-         match type of Hk with
-         | In _ (if ?c then _ else _) =>
-             destruct c eqn:Ec;
-             [ apply andb_true_iff in Ec; destruct Ec as [Ec1 Ec2];
-               apply in_add_peer in Hk; destruct Hk as [->|Hk];
-               [ apply claim_connected; assumption | apply Hold; [exact Hk|discriminate] ]
-             | apply Hold; [exact Hk|discriminate] ]
-         end).
-  simpl in Hk. apply in_del_peer in Hk. destruct Hk as [Hin Hne].
-  apply Hold; [exact Hin|]. intro E. inversion E. congruence.
+    exists i, n'. repeat split; auto. congruence.
 Qed.
 
 Lemma grun_fst : forall local K h t g, fst (grun local K t g h) = run local K t h.
@@ -174,10 +216,10 @@ Lemma grun_app : forall local K h1 h2 t g,
   grun local K (fst (grun local K t g h1)) (snd (grun local K t g h1)) h2.
 Proof. induction h1 as [|o h1 IH]; intros h2 t g; simpl; [reflexivity|apply IH]. Qed.
 
-Lemma gt_step_mono : forall local t' code g o k,
-  In k g -> o <> ODisconnected k -> In k (gt_step local t' code g o).
+Lemma gt_step_mono : forall local t t' code g o k,
+  In k g -> o <> ODisconnected k -> In k (gt_step local t t' code g o).
 Proof.
-  intros local t' code g o k Hin Hnd.
+  intros local t t' code g o k Hin Hnd.
   destruct o as [k0|k0 a0 c0|k0 a0 c0|k0 d0|k0 a0|k0];
     try (unfold gt_step; match goal with |- In _ (if ?c then _ else _) => destruct c end;
          [apply add_peer_mono; exact Hin|exact Hin]).
@@ -219,8 +261,8 @@ Qed.
 
 Lemma ghost_snoc : forall local K h o,
   ghost local K (h ++ [o]) =
-  gt_step local (reach local K (h ++ [o])) (snd (snd (step local K (reach local K h) o)))
-          (ghost local K h) o.
+  gt_step local (reach local K h) (reach local K (h ++ [o]))
+          (snd (snd (step local K (reach local K h) o))) (ghost local K h) o.
 Proof.
   intros local K h o. unfold ghost, reach. rewrite grun_app, run_app. simpl.
   rewrite grun_fst. reflexivity.
@@ -245,18 +287,9 @@ Proof.
     assert (Hcase : (op_key o = k /\ claims_connected o (last_code local K h o) = true /\
                      stored_in local (reach local K (h ++ [o])) k = true) \/
                     (In k (ghost local K h) /\ o <> ODisconnected k)).
-    { destruct o as [k0|k0 a0 c0|k0 a0 c0|k0 d0|k0 a0|k0];
-        try (unfold gt_step in Hk;
-             match type of Hk with
-             | In _ (if ?c then _ else _) =>
-                 destruct c eqn:Ec;
-                 [ apply andb_true_iff in Ec; destruct Ec as [Ec1 Ec2];
-                   apply in_add_peer in Hk; destruct Hk as [->|Hk];
-                   [ left; repeat split; assumption | right; split; [exact Hk|discriminate] ]
-                 | right; split; [exact Hk|discriminate] ]
-             end).
-      simpl in Hk. apply in_del_peer in Hk. destruct Hk as [Hin Hne].
-      right. split; [exact Hin|]. intro E. inversion E. congruence. }
+    { apply in_gt_step in Hk. destruct Hk as [[E1 [E2 E3]]|H]; [left|right; exact H].
+      split; [exact E1|]. split; [exact E2|]. subst k.
+      unfold reach in *. rewrite run_app in *. simpl in *. apply stored_or. exact E3. }
     destruct Hcase as [[E1 [E2 E3]]|[Hin Hnd]].
     + exists h, o, []. repeat split; auto.
     + destruct (IH k Hin) as [h1 [o' [h2 [E [E1 [E2 [E3 E4]]]]]]].
@@ -270,7 +303,7 @@ Proof.
     { intros k0 E. subst o. simpl in E2. discriminate. }
     unfold last_code in E2. subst k.
     destruct o as [k0|k0 a0 c0|k0 a0 c0|k0 d0|k0 a0|k0];
-      try (unfold gt_step; rewrite E2, E3; simpl; apply add_peer_in).
+      try (unfold gt_step; rewrite E2, E3, orb_true_r; simpl; apply add_peer_in).
     exfalso. eapply Hnd. reflexivity.
 Qed.
 
@@ -394,7 +427,7 @@ Proof.
   { rewrite kflat_app, kflat_single. reflexivity. }
   unfold kreach in Hst. rewrite krun_flat, E in Hst. simpl k_table in Hst. fold (reach local K) in Hst.
   unfold kghost. rewrite E, ghost_snoc. simpl gt_step.
-  unfold reach at 1. unfold reach in Hst. rewrite Hst. apply add_peer_in.
+  unfold reach in *. rewrite Hst, orb_true_r. apply add_peer_in.
 Qed.
 
 (* ---- before the repairs: the rule of add_known_peer matters ---- *)
@@ -433,4 +466,103 @@ Proof.
   intros t a b Ha Hb Hne.
   assert (H : kxor t a <> kxor t b) by (intro E; apply Hne; eapply kxor_inj; eauto).
   split; [exact H|]. apply klt_total; [|exact H]. rewrite !kxor_length. lia.
+Qed.
+
+(* ---- a peer is displaced only to make room ---- *)
+
+Definition key_in (k : key) (b : list node) : Prop := exists n', In n' b /\ n_key n' = k.
+
+Definition stores_op (o : op) : bool :=
+  match o with OInsert _ _ _ | OAdd _ _ _ => true | _ => false end.
+
+Lemma key_in_mid : forall a y c (n : node),
+  In n (a ++ y :: c) -> forall y', n_key y' = n_key y -> key_in (n_key n) (a ++ y' :: c).
+Proof.
+  intros a y c n H y' E. apply in_app_iff in H. destruct H as [H|[H|H]].
+  - exists n. split; [apply in_app_iff; left; exact H|reflexivity].
+  - subst y. exists y'. split; [apply in_mid|exact E].
+  - exists n. split; [apply in_app_iff; right; right; exact H|reflexivity].
+Qed.
+
+Lemma apply_slot_displaced : forall K b o n,
+  In n b -> ~ key_in (n_key n) (apply_slot o b (bucket_entry K b (op_key o))) ->
+  K <= length b /\ replaceable n = true /\ stores_op o = true /\ ~ key_in (op_key o) b /\
+  exists a c, b = a ++ n :: c /\ Forall (fun x => replaceable x = false) a.
+Proof.
+  intros K b o n Hin Hno. unfold apply_slot, bucket_entry in Hno.
+  set (k := op_key o) in *.
+  assert (Hself : forall l, In n l -> key_in (n_key n) l) by (intros l H; exists n; auto).
+  destruct (split_first (has_key k) b) as [[[a y] c]|] eqn:E1.
+  - exfalso. apply split_first_some in E1. destruct E1 as [Eb _]. subst b. apply Hno.
+    assert (H : exists y', apply_slot_gen add_conn o (a ++ y :: c) (SOcc a y c) = a ++ y' :: c /\ n_key y' = n_key y)
+      by (destruct o; eexists; split; reflexivity).
+    destruct H as [y' [-> E]]. eapply key_in_mid; eauto.
+  - pose proof (split_first_none _ _ E1) as Hnk.
+    destruct (length b <? K) eqn:EK.
+    + exfalso. apply Hno. apply Hself.
+      destruct o; simpl; apply in_app_iff; left; exact Hin.
+    + destruct (split_first replaceable b) as [[[a y] c]|] eqn:E3.
+      * apply split_first_some in E3. destruct E3 as [Eb [Hy Ha]].
+        assert (Hny : n = y /\ stores_op o = true).
+        { rewrite Eb in Hin. apply in_app_iff in Hin.
+          destruct Hin as [H|[H|H]].
+          - exfalso. apply Hno. apply Hself. destruct o; simpl; try (rewrite Eb);
+              apply in_app_iff; left; exact H.
+          - split; [symmetry; exact H|].
+            destruct o; try reflexivity; exfalso; apply Hno; apply Hself; simpl; rewrite H; apply in_mid.
+          - exfalso. apply Hno. apply Hself. destruct o; simpl; try (rewrite Eb);
+              apply in_app_iff; right; right; exact H. }
+        destruct Hny as [-> Hst]. split; [apply Nat.ltb_ge; exact EK|]. split; [exact Hy|].
+        split; [exact Hst|]. split.
+        -- intros [n' [Hn' Ek]]. rewrite Forall_forall in Hnk. specialize (Hnk n' Hn').
+           unfold has_key in Hnk. rewrite Ek, key_eqb_refl in Hnk. discriminate.
+        -- exists a, c. auto.
+      * exfalso. apply Hno. apply Hself. destruct o; simpl; exact Hin.
+Qed.
+
+Lemma step_displaced : forall local K t o j n,
+  In n (nth j t []) ->
+  ~ key_in (n_key n) (nth j (fst (step local K t o)) []) ->
+  ilog2 (kxor local (op_key o)) = Some j /\ K <= length (nth j t []) /\ replaceable n = true /\
+  stores_op o = true /\ ~ key_in (op_key o) (nth j t []) /\
+  exists a c, nth j t [] = a ++ n :: c /\ Forall (fun x => replaceable x = false) a.
+Proof.
+  intros local K t o j n Hin Hno.
+  destruct (step_cases local K t o) as [E|[i [Hi E]]]; rewrite E in Hno.
+  - exfalso. apply Hno. exists n. auto.
+  - destruct (Nat.eq_dec j i) as [->|Hji].
+    + assert (Hlt : i < length t).
+      { destruct (Nat.lt_ge_cases i (length t)) as [H|H]; auto.
+        rewrite nth_overflow in Hin by exact H. destruct Hin. }
+      rewrite nth_upd_same in Hno by exact Hlt.
+      split; [exact Hi|]. apply (apply_slot_displaced K _ o n Hin Hno).
+    + exfalso. rewrite nth_upd_other in Hno by exact Hji. apply Hno. exists n. auto.
+Qed.
+
+Lemma upd_nth_same_val : forall {A} i (l : list A) d, upd_nth i (nth i l d) l = l.
+Proof.
+  intros A i l. revert i. induction l as [|h t IH]; intros i d; [destruct i; reflexivity|].
+  destruct i; simpl; [reflexivity|]. f_equal. apply IH.
+Qed.
+
+(* a full bucket of peers none of which is replaceable turns a new key away: NoSlot, nothing changes *)
+Lemma step_full_rejects : forall local K t o i,
+  ilog2 (kxor local (op_key o)) = Some i -> K <= length (nth i t []) ->
+  Forall (fun x => replaceable x = false) (nth i t []) -> ~ key_in (op_key o) (nth i t []) ->
+  fst (step local K t o) = t /\ (snd (snd (step local K t o)) = 3 \/ snd (snd (step local K t o)) = 4).
+Proof.
+  intros local K t o i Hi HK Hrep Hnk.
+  assert (E : bucket_entry K (nth i t []) (op_key o) = SNoSlot).
+  { unfold bucket_entry.
+    destruct (split_first (has_key (op_key o)) (nth i t [])) as [[[a y] c]|] eqn:E1.
+    - exfalso. apply split_first_some in E1. destruct E1 as [Eb [Hy _]]. apply Hnk.
+      exists y. split; [rewrite Eb; apply in_mid|]. unfold has_key in Hy. apply key_eqb_eq. exact Hy.
+    - replace (length (nth i t []) <? K) with false by (symmetry; apply Nat.ltb_ge; exact HK).
+      destruct (split_first replaceable (nth i t [])) as [[[a y] c]|] eqn:E3; [|reflexivity].
+      exfalso. apply split_first_some in E3. destruct E3 as [Eb [Hy _]].
+      rewrite Forall_forall in Hrep. rewrite (Hrep y) in Hy; [discriminate|]. rewrite Eb. apply in_mid. }
+  unfold step, step_gen.
+  destruct o as [k0|k0 a0 c0|k0 [|] c0|k0 d0|k0 a0|k0]; simpl in *; rewrite ?Hi, ?E; simpl;
+    try (split; [apply upd_nth_same_val|auto]).
+  split; auto.
 Qed.
